@@ -1390,7 +1390,8 @@ func init() {
 			"later forms and a fixed battery behave as in an interpreter that never ran the failing form. distinct_nontrivial counts distinct (fault kind, VM call/scope/loop depth at the fault, re-entry routes of the form) and (native failure shape) signatures.",
 		Components: comps,
 		Assume: []string{
-			"one form per EvalString, so 'the part that ran before the failure' is well defined",
+			"one form per EvalString in the fault enumeration, so 'the part that ran before the failure' is well defined; the grouped-failure clause puts the failing form into a text of several forms and accepts both honest readings (nothing of the text ran / the forms in front ran)",
+			"part 'repeat': one failing form evaluated 3..12000 (thorough: up to 40000) times, then the battery against a twin that never ran it",
 			"the twin comparison is applied only when the failing form had no global effect before the failing call (static hint from the generator, confirmed dynamically by snapshot equality)",
 			"generated-symbol digits, line numbers, addresses and stack traces are masked before comparing (the failed form legitimately consumed symbol numbers)",
 			"a step-budget abort is never used as a fault and no oracle is evaluated after it",
